@@ -88,6 +88,9 @@ def main(argv):
     tier = "quick"
     if "--tier" in argv:
         tier = argv[argv.index("--tier") + 1]
+    tag = ""
+    if "--tag" in argv:
+        tag = argv[argv.index("--tag") + 1] + "-"
     out = []
     for patch in sorted(glob.glob(os.path.join(seed_dir, "patch*.diff"))):
         i = re.search(r"patch(\d+)\.diff", patch).group(1)
@@ -97,7 +100,7 @@ def main(argv):
         rec["confirmation"] = confirm(patch, demo)
         if rec["confirmation"].get("confirmed"):
             rec["evaluation"] = {tier: evaluate(patch, prop, tier)}
-            dest = os.path.join(ROOT, "seeded", "%s-%s" % (prop, i))
+            dest = os.path.join(ROOT, "seeded", "%s-%s%s" % (prop, tag, i))
             os.makedirs(dest, exist_ok=True)
             shutil.copy(patch, os.path.join(dest, "patch.diff"))
             shutil.copy(demo, os.path.join(dest, "demo.py"))
@@ -114,6 +117,13 @@ def main(argv):
                         rec["confirmation"]["demo_without_patch_rc"])],
                 "check_runs": rec["evaluation"],
             }
+            old = os.path.join(dest, "meta.json")
+            if os.path.exists(old):
+                try:
+                    prev = json.load(open(old))
+                    meta["earlier_check_runs"] = prev.get("earlier_check_runs", []) + [prev.get("check_runs")]
+                except ValueError:
+                    pass
             with open(os.path.join(dest, "meta.json"), "w") as fh:
                 json.dump(meta, fh, indent=1)
         out.append(rec)
